@@ -394,7 +394,12 @@ theorem C05_selected_delivers (d : Defects) (s : St) (q : Bool) (st f : Int) (w 
 with the same system bytes and any message with other system bytes go to the application -/
 example : (step .none ⟨.selected, false, true, 1001, [(1001, .select)], false, 0⟩ (.rxData 1 2 false 1001 true)).2 = [.deliverWaiter 1001]
     ∧ (step .none ⟨.selected, false, true, 1001, [(1001, .select)], false, 0⟩ (.rxData 1 1 true 1001 true)).2 = [.deliverApp 1001]
-    ∧ (step .none ⟨.selected, false, true, 1001, [(1001, .select)], false, 0⟩ (.rxData 1 2 false 5 true)).2 = [.deliverApp 5] := by decide
+    ∧ (step .none ⟨.selected, false, true, 1001, [(1001, .select)], false, 0⟩ (.rxData 1 2 false 5 true)).2 = [.deliverApp 5]
+    -- the W-bit plays no part: a primary WITHOUT W on the open system bytes still goes to the application (the requester keeps waiting),
+    -- an even function WITH W on them goes to the requester
+    ∧ step .none ⟨.selected, false, true, 1001, [(1001, .select)], false, 0⟩ (.rxData 5 1 false 1001 true)
+        = (⟨.selected, false, true, 1001, [(1001, .select)], false, 0⟩, [.deliverApp 1001])
+    ∧ (step .none ⟨.selected, false, true, 1001, [(1001, .select)], false, 0⟩ (.rxData 1 2 true 1001 true)).2 = [.deliverWaiter 1001] := by decide
 
 /-- **The three statements at every point of every history** (from any start state, for both variants). -/
 theorem C05_history_responses (d : Defects) (s0 : St) (is : List In) :
